@@ -167,7 +167,7 @@ def f2_predicate(spec, sr, method):
 
 def run(tier, seed):
     rng = random.Random(seed)
-    n = int(os.environ.get("VERIF_N", 0)) or (150 if tier == "quick" else 1500)
+    n = int(os.environ.get("VERIF_N", 0)) or (150 if tier == "quick" else 4000)
     violations = []
     bycf = {k: [] for k in ("real", "trop", "bool")}; meta = {k: [] for k in bycf}
     feats = {}; distinct = set(); kinds = dict(values=0, budget=0, valueerror=0)
